@@ -68,7 +68,7 @@ def prefix(np_, nc, how, collect, sweep):
         pass
     if collect:
         gc.collect()
-    if sweep:
+    if sweep is True:
         SymbolGraph().remove_dead_instances()
 
 
@@ -79,6 +79,8 @@ def run(seq_name, order, pre):
     objs = {}
     for n in order:
         objs[n] = MAKE[n]()
+    if pre is not None and pre[4] == "late":
+        SymbolGraph().remove_dead_instances()      # the sweep happens after the new instances took over ids / indices
     SEQS[seq_name](objs)
     o = observe(objs)
     return o
@@ -89,7 +91,7 @@ for np_, nc in itertools.product(range(0, 4), range(0, 3)):
     if np_ + nc == 0:
         continue
     for how in ("works_for", "members", "member_of", "none"):
-        for collect, sweep in ((True, True), (True, False), (False, False)):
+        for collect, sweep in ((True, True), (True, False), (False, False), (True, "late")):
             prefixes.append((np_, nc, how, collect, sweep))
 if a.tier == "quick":
     prefixes = [p for i, p in enumerate(prefixes) if p is None or (p[0] <= 2 and p[1] <= 1)]
@@ -101,7 +103,7 @@ for seq_name in SEQS:
         for pre in prefixes[1:]:
             st, got = guarded(lambda: run(seq_name, order, pre))
             rep.case((seq_name, order, pre), sample={"sequence": seq_name, "creation_order": order, "prefix": pre})
-            sig = f"{seq_name.split(';')[0].split('.')[0]}::after-{'swept' if pre[4] else ('collected' if pre[3] else 'uncollected')}-prefix"
+            sig = f"{seq_name.split(';')[0].split('.')[0]}::after-{'late-swept' if pre[4] == 'late' else ('swept' if pre[4] else ('collected' if pre[3] else 'uncollected'))}-prefix"
             if st == "exc":
                 rep.fail(sig + "::raised", f"{seq_name} order={order} prefix={pre}: {type(got).__name__}: {got}", {"sequence": seq_name, "order": order, "prefix": pre})
                 continue
@@ -111,5 +113,49 @@ for seq_name in SEQS:
             elif pre[3] and pre[4] and got["bookkeeping"] != ref["bookkeeping"]:
                 rep.fail(sig + "::bookkeeping", f"{seq_name} order={order} prefix={pre}: (instance index, relation index pairs, edges, nodes) = {got['bookkeeping']}; fresh graph: {ref['bookkeeping']}",
                          {"sequence": seq_name, "order": order, "prefix": pre})
+# ---- a dead, not yet swept instance whose id has been taken over by a new instance before the sweep runs
+def id_reuse_scenario(seq_name, related):
+    fresh_graph()
+    keep = Company(name="keep")
+    dead = Company(name="dead")
+    if related:
+        keep.sub_organization_of = [dead]
+        keep.sub_organization_of = []          # releases the target; the graph edge stays until the sweep
+    dead_id = id(dead)
+    del dead
+    gc.collect()
+    hit, others = None, []
+    for i in range(20000):
+        o = Company(name="c")
+        if id(o) == dead_id:
+            hit = o
+            break
+        others.append(o)
+    if hit is None:
+        return None
+    del others
+    gc.collect()
+    SymbolGraph().remove_dead_instances()
+    objs = {"c": hit, "keep": keep}
+    for n in ("p", "q", "d", "c2"):
+        objs[n] = MAKE[n]()
+    SEQS[seq_name](objs)
+    return observe({k: v for k, v in objs.items() if k != "keep"})
+
+
+for seq_name in SEQS:
+    ref = run(seq_name, ("c", "p", "q", "d", "c2"), None)
+    for related in (False, True):
+        st, got = guarded(lambda: id_reuse_scenario(seq_name, related))
+        if st == "ok" and got is None:
+            continue            # CPython did not hand out the address again: inconclusive, not counted
+        rep.case(("id-reuse", seq_name, related), sample={"sequence": seq_name, "scenario": "id reuse before sweep", "related": related})
+        sig = f"{seq_name.split(';')[0].split('.')[0]}::id-reuse-before-sweep"
+        if st == "exc":
+            rep.fail(sig + "::raised", f"{seq_name} after an unswept dead instance's id was reused (related={related}): {type(got).__name__}: {got}", {"sequence": seq_name})
+        elif got["fields"] != ref["fields"] or got["relations"] != ref["relations"]:
+            rep.fail(sig, f"{seq_name} after an unswept dead instance's id was reused (related={related}): fields {got['fields']} relations {got['relations']}; fresh graph: {ref['fields']} {ref['relations']}", {"sequence": seq_name})
+        elif got["bookkeeping"][3] != ref["bookkeeping"][3] + 1:
+            rep.fail(sig + "::bookkeeping", f"{seq_name} after an unswept dead instance's id was reused (related={related}): {got['bookkeeping'][3]} graph nodes, expected {ref['bookkeeping'][3] + 1} (the 5 new instances and `keep`)", {"sequence": seq_name})
 fresh_graph()
 rep.finish(exhaustive=True)
